@@ -106,5 +106,7 @@ def families(tier, seed):
     from lib import apigen
     n = 10 if tier == "quick" else 120
     api = [(f"rx-{k}", apigen.replay_history(rng, tier)[0]) for k in range(n)]
-    return [Family("rdbx-leaf", rdbx_scripts(tier, rng), monitor=rdbx_monitor),
+    rs = [(f"resync-{k}", apigen.resync_redeliver(rng, tier)) for k in range(n)]
+    return [Family("srtp-resync-redeliver", rs, monitor=apigen.redeliver_monitor),
+            Family("rdbx-leaf", rdbx_scripts(tier, rng), monitor=rdbx_monitor),
             Family("srtp-unprotect-histories", api, monitor=lambda s, c: apigen.replay_monitor(s, c, False))]
